@@ -5,6 +5,7 @@ import Driver.Scan
 import Driver.Views
 import Driver.Connect
 import Driver.Params
+import Driver.Ops
 open Driver
 
 def handle (line : String) : String :=
@@ -23,6 +24,7 @@ def handle (line : String) : String :=
   | "mc" :: rest => handleMC rest
   | "mt" :: rest => handleMT rest
   | "scat" :: rest => handleScat rest
+  | "ops" :: rest => handleOps rest
   | "ping" :: _ => "pong"
   | _ => "bad-op"
 
